@@ -414,9 +414,11 @@ class XmlGenerator:
 
         def get_displaced_content(start, name, marker):
             # find the displaced content, by walking through following nodes in the tree
-            for parent in start.iterancestors():
+            ancestors = list(start.iterancestors())
+            for parent in ancestors:
                 for child in parent.iter(f'{{{ns}}}displaced'):
-                    if child.get('marker') == marker and child.get('name') == name:
+                    # content that contains the reference itself can't be moved into it
+                    if child.get('marker') == marker and child.get('name') == name and child not in ancestors:
                         return child
                 # TODO: when to stop
 
